@@ -549,6 +549,11 @@ void QXmppOutgoingClient::openSession()
     Q_ASSERT(!d->sessionStarted);
     d->sessionStarted = true;
 
+    // a session without stream management cannot be resumed and replaces any older resumable one
+    if (!d->c2sStreamManager.enabled()) {
+        d->c2sStreamManager.onStreamClosed();
+    }
+
     SessionBegin session {
         d->c2sStreamManager.enabled(),
         d->c2sStreamManager.streamResumed(),
